@@ -274,15 +274,18 @@ def addWordinfo (c : TCfg Wt) (x : TTx W Wt) (wid : Nat) (f : Wt) (d : Int) : TT
   | none => (x.wcChange 1).wiSet wid (.dict [(d, f)])         -- `doc2score = {}`: a new dict
   | some v => addExisting c c.addReassign x wid f d v
 
+/-- one round of the loop of `_mass_add_wordinfo`; the second component is 1 for a new word -/
+def massRound (c : TCfg Wt) (x : TTx W Wt) (d : Int) (wid : Nat) (f : Wt) : TTx W Wt × Int :=
+  let x := x.rd (.wi wid)
+  match AMap.get x.heap.wordinfo wid with
+  | none => (x.wiSet wid (.dict [(d, f)]), 1)
+  | some v => (addExisting c (!c.massRootOnly) x wid f d v, 0)
+
 /-- the loop of `_mass_add_wordinfo`; the second component counts the new words -/
 def massLoop (c : TCfg Wt) (x : TTx W Wt) (d : Int) : AMap Nat Wt → TTx W Wt × Int
   | [] => (x, 0)
   | (wid, f) :: rest =>
-    let x := x.rd (.wi wid)
-    let r :=
-      match AMap.get x.heap.wordinfo wid with
-      | none => (x.wiSet wid (.dict [(d, f)]), (1 : Int))
-      | some v => (addExisting c (!c.massRootOnly) x wid f d v, 0)
+    let r := massRound c x d wid f
     let r2 := massLoop c r.1 d rest
     (r2.1, r.2 + r2.2)
 
